@@ -74,3 +74,12 @@ package msgpack
 //@   tags C17
 //@   borrows path
 //@   ensures[C17] ok: (=> (= result.1 nil.Any) (decoded_ok result.0 $G<cty.DynamicPseudoType>))
+//
+// Encoder side (C16): a marked value is rejected with an error at whatever depth marshal reaches it
+// through its own recursion; nothing else about the encoder is claimed (the third-party encoder is an
+// external whose effects are not modelled).
+//@ func msgpack.marshal
+//@   tags C16
+//@   may_panic
+//@   requires (wf_deep val)
+//@   ensures[C16] marked_rejected: (=> (is_marked val) (not (= result nil.Any)))
